@@ -16,7 +16,8 @@ EXPLANATION = (
     "is the unmodified read() of the input file, cfg is the object the -C loop and --unparser "
     "write to; C16-R3 the names the -C guard accepts equal the set of option descriptors, values "
     "go through the descriptor's __set__, whose list-typed branch raises for every value outside "
-    "the declared list before storing."
+    "the declared list before storing; C16-R4 must-analysis over the descriptor's __set__: every "
+    "non-raising exit stores the value in the instance under the key __get__ reads (the last -C wins)."
 )
 ASSUMPTIONS = ["argparse behaviour is the stdlib's", "the meaning of the written text is C01's"]
 
